@@ -396,6 +396,9 @@ func edgeScalars() []*big.Int {
 		bigHex("7FFFFFFFFFFFFFFFFFFFFFFFFFFFFFFFFFFFFFFFFFFFFFFFFFFFFFFFFFFFFFFFF"),
 		bigHex("8000000000000000000000000000000000000000000000000000000000000000"),
 		bigHex("1111111111111111111111111111111111111111111111111111111111111111"), // every comb nibble 1
+		// witness of the GetPublicKey parity defect (repaired by /repo 63bfb7fc): k·G has a Y whose limbs, as left
+		// by SetXYZ, are ≥ 2^256, so the un-normalised low bit is the wrong parity
+		bigHex("e3bc9a35f5b6fe555083c59247dec4a07f8b61b16dbf43f9b3b7277f04758a27"),
 		bigHex("FFFFFFFFFFFFFFFFFFFFFFFFFFFFFFFFFFFFFFFFFFFFFFFFFFFFFFFFFFFFFFF0"),
 		bigHex("0FFFFFFFFFFFFFFFFFFFFFFFFFFFFFFFFFFFFFFFFFFFFFFFFFFFFFFFFFFFFFFF"),
 	}
